@@ -22,6 +22,7 @@ View == /\ IsEv("view") /\ E.phase = "iter" /\ E.exc = ""
            /\ (E.hasget = 1 => E.get = want)                       \* the i-th item is what get(i) returns
            /\ (E.hasgetn = 1 => E.getn = Reverse(want))
            /\ (E.hasasg = 1 => E.asg = want)                      \* a Range / Slice / Zip assigned from this one iterates like it
+           /\ (E.hascpy # 0 => E.hascpy = 1 /\ E.cpy = want)    \* a copy of a view iterates like the view (and copying it does not fail)
            /\ (E.hasshown = 1 => E.shown = want)                  \* show lists the items in iteration order
            /\ \A k \in 1..Len(E.oob) : E.oob[k][2] = "IndexOutOfBoundsError"     \* positions outside the view are refused (C12)
            /\ \A k \in 1..Len(E.mems) :                          \* mem(view, x) holds exactly for the items the view yields
